@@ -216,7 +216,7 @@ def child_main(rank, size, rfd, wfd, spec, scratch, pkgdir):
         import numpy as np
         np.random.seed((int(spec.get('npseed', 0)) * 1000 + rank) % (2 ** 32))
         from . import ops
-        ops.run_program(spec['program'], rank, size, scratch, report, comm, state)
+        ops.run_program(spec['program'], rank, size, scratch, report, comm, state, spec.get('op_plans'))
     except BaseException as e:   # noqa: B902 - SystemExit/KeyboardInterrupt from ESR are failures too
         status = 'exc'
         tb = traceback.format_exc()
